@@ -56,12 +56,6 @@ theorem matchHidden_sound (c : MCtx) (cs rem : List VNode) (h : rem ∈ matchHid
       · simp at h
     · simp at h
 
-/-- the three soundness statements at one fuel level -/
-def SoundAt (g : Grammar) (f : Nat) : Prop :=
-  (∀ r c cs rem, rem ∈ matchRule g f r c cs → ∃ pre, cs = pre ++ rem ∧ Matches g r c pre) ∧
-  (∀ b kids, checkBody g f b kids = true → NodeBody g b kids) ∧
-  (∀ k, checkExtra g f k = true → ExtraOK g k)
-
 theorem token_case (g : Grammar) (a : Rule) (c : MCtx) (cs rem : List VNode)
     (mkStr : ∀ s, tokenString a = some s → Matches g (.token a) c [leafFor c s false])
     (mkHid : tokenString a = none → c.effAlias = none → Matches g (.token a) c [])
@@ -77,11 +71,18 @@ theorem token_case (g : Grammar) (a : Rule) (c : MCtx) (cs rem : List VNode)
     · exact ⟨[], rfl, mkHid hs ha⟩
     · exact ⟨_, hcs, mkAl v n hs ha⟩
 
-theorem sound_step (g : Grammar) (f : Nat) (ih : SoundAt g f) : SoundAt g (f + 1) := by
-  obtain ⟨ihM, ihB, ihE⟩ := ih
-  refine ⟨?_, ?_, ?_⟩
-  · intro r c cs rem h
-    unfold matchRule at h
+/-- soundness of the parameterised matcher: whatever `cb` accepts being a derivation, what the matcher
+consumes is matched by the rule -/
+theorem matchP_sound (g : Grammar) (cb : Rule → List VNode → Bool)
+    (hcb : ∀ b kids, cb b kids = true → NodeBody g b kids) :
+    ∀ (f : Nat) (r : Rule) (c : MCtx) (cs rem : List VNode), rem ∈ matchRuleP g cb f r c cs →
+      ∃ pre, cs = pre ++ rem ∧ Matches g r c pre := by
+  intro f
+  induction f with
+  | zero => intro r c cs rem h; simp [matchRuleP] at h
+  | succ f ihM =>
+    intro r c cs rem h
+    unfold matchRuleP at h
     cases r with
     | blank =>
       simp only [List.mem_singleton] at h
@@ -156,7 +157,7 @@ theorem sound_step (g : Grammar) (f : Nat) (ih : SoundAt g f) : SoundAt g (f + 1
               subst h
               obtain ⟨h1, h2, h3, h5⟩ := hc
               subst h1 h2 h3
-              exact ⟨[_], rfl, .repAliased hal (ihB _ _ h5)⟩
+              exact ⟨[_], rfl, .repAliased hal (hcb _ _ h5)⟩
             · simp at h
           · simp at h
     | rep1 a =>
@@ -195,7 +196,7 @@ theorem sound_step (g : Grammar) (f : Nat) (ih : SoundAt g f) : SoundAt g (f + 1
             subst h
             obtain ⟨h1, h2, h3, h5⟩ := hc
             subst h1 h2 h3
-            exact ⟨[_], rfl, .rep1Aliased hal (ihB _ _ h5)⟩
+            exact ⟨[_], rfl, .rep1Aliased hal (hcb _ _ h5)⟩
           · simp at h
         · simp at h
     | field n a =>
@@ -266,41 +267,47 @@ theorem sound_step (g : Grammar) (f : Nat) (ih : SoundAt g f) : SoundAt g (f + 1
               subst h
               obtain ⟨h1, h2, h3, h4⟩ := hc
               subst h1 h2 h3
-              exact ⟨[_], rfl, .symVisible hb hk (ihB b _ h4)⟩
+              exact ⟨[_], rfl, .symVisible hb hk (hcb b _ h4)⟩
             · simp at h
           · simp at h
-  · intro b kids h
-    unfold checkBody at h
-    simp only [Bool.or_eq_true, Bool.and_eq_true, List.isEmpty_iff, List.any_eq_true, List.all_eq_true,
-      Bool.not_eq_true'] at h
-    rcases h with ⟨ht, hk⟩ | ⟨⟨rem, hrem, hnil⟩, hex⟩
-    · subst hk; exact .token ht
-    · subst hnil
-      obtain ⟨p, hc, hm⟩ := ihM b {} (nonExtra kids) [] hrem
-      simp only [List.append_nil] at hc
-      refine .inner (by rw [hc]; exact hm) ?_
-      intro k hk hke
-      rcases hex k hk with h0 | h1
-      · rw [hke] at h0; cases h0
-      · exact ihE k h1
-  · intro k h
-    obtain ⟨kd, n, x, fl, kids⟩ := k
-    unfold checkExtra at h
-    simp only [List.any_eq_true, List.isEmpty_iff] at h
-    obtain ⟨e, he, rem, hrem, hnil⟩ := h
-    subst hnil
-    obtain ⟨p, hc, hm⟩ := ihM e _ _ [] hrem
-    simp only [List.append_nil] at hc
-    exact .mk he (by rw [hc]; exact hm)
 
-theorem sound_all (g : Grammar) : ∀ f, SoundAt g f := by
+theorem extraP_sound (g : Grammar) (cb : Rule → List VNode → Bool)
+    (hcb : ∀ b kids, cb b kids = true → NodeBody g b kids) (f : Nat) (k : VNode)
+    (h : extraP g cb f k = true) : ExtraOK g k := by
+  obtain ⟨kd, n, x, fl, kids⟩ := k
+  unfold extraP at h
+  simp only [List.any_eq_true, List.isEmpty_iff] at h
+  obtain ⟨e, he, rem, hrem, hnil⟩ := h
+  subst hnil
+  obtain ⟨p, hc, hm⟩ := matchP_sound g cb hcb f e _ _ [] hrem
+  simp only [List.append_nil] at hc
+  exact .mk he (by rw [hc]; exact hm)
+
+theorem bodyP_sound (g : Grammar) (cb : Rule → List VNode → Bool)
+    (hcb : ∀ b kids, cb b kids = true → NodeBody g b kids) (f : Nat) (b : Rule) (kids : List VNode)
+    (h : bodyP g cb f b kids = true) : NodeBody g b kids := by
+  unfold bodyP at h
+  simp only [Bool.or_eq_true, Bool.and_eq_true, List.isEmpty_iff, List.any_eq_true, List.all_eq_true,
+    Bool.not_eq_true'] at h
+  rcases h with ⟨ht, hk⟩ | ⟨⟨rem, hrem, hnil⟩, hex⟩
+  · subst hk; exact .token ht
+  · subst hnil
+    obtain ⟨p, hc, hm⟩ := matchP_sound g cb hcb f b {} (nonExtra kids) [] hrem
+    simp only [List.append_nil] at hc
+    refine .inner (by rw [hc]; exact hm) ?_
+    intro k hk hke
+    rcases hex k hk with h0 | h1
+    · rw [hke] at h0; cases h0
+    · exact extraP_sound g cb hcb f k h1
+
+theorem checkBody_sound (g : Grammar) : ∀ (f : Nat) (b : Rule) (kids : List VNode),
+    checkBody g f b kids = true → NodeBody g b kids := by
   intro f
   induction f with
-  | zero =>
-    refine ⟨?_, ?_, ?_⟩
-    · intro r c cs rem h; simp [matchRule] at h
-    · intro b kids h; simp [checkBody] at h
-    · intro k h; simp [checkExtra] at h
-  | succ f ih => exact sound_step g f ih
+  | zero => intro b kids h; simp [checkBody] at h
+  | succ f ih =>
+    intro b kids h
+    unfold checkBody at h
+    exact bodyP_sound g _ (fun b' ks' h' => ih b' ks' h') f b kids h
 
 end TsVerif.C03
